@@ -157,7 +157,11 @@ type FakeChain struct {
 	Fail                 error
 	BlockTime            uint64
 	Registered           [][5]*big.Int
+	PendingAll           bool // the answer of IsPendingNode for every id
 }
+
+// IsPendingNode: the registry view; nothing the node signs or reports may depend on it.
+func (c *FakeChain) IsPendingNode(id []byte) (bool, error) { return c.PendingAll, nil }
 
 func (c *FakeChain) UpdateRandomness(s *vss.Signature) error {
 	c.mu.Lock()
